@@ -235,6 +235,10 @@ pub fn minimise(prop: &str, clause: &str, t: &Trace, scratch: &Scratch) -> (Trac
             let (m, ch) = crate::recorder::minimise(prop, clause, c, scratch);
             (Trace::Recorder(m), ch)
         }
+        Trace::Bytes(c) => {
+            let (m, ch) = crate::crash::minimise(prop, clause, c);
+            (Trace::Bytes(m), ch)
+        }
         Trace::Rules(c) => {
             let (m, ch) = crate::rules::minimise(prop, clause, c, scratch);
             (Trace::Rules(m), ch)
